@@ -139,24 +139,67 @@ theorem jwtValidate_eq_spec (c : JwtCfg) (env : Env) (h : Header) :
   | none => rfl
   | some t => exact jwtParse_keyFunc c env.jwtLib t
 
-theorem outcome_bool (a c d e : Bool) :
+theorem outcome_bool (a c d o e : Bool) :
     (if (!a) = true then Outcome.invalid 400 else if (!c) = true then Outcome.invalid 401
-      else if (!d) = true then Outcome.invalid 401 else if (!e) = true then Outcome.invalid 401 else Outcome.pass)
-    = (if (a && c && d && e) = true then Outcome.pass else if a = true then Outcome.invalid 401 else Outcome.invalid 400) := by
-  cases a <;> cases c <;> cases d <;> cases e <;> rfl
+      else if (!d) = true then Outcome.invalid 401 else if (!o) = true then Outcome.invalid 401
+      else if (!e) = true then Outcome.invalid 401 else Outcome.pass)
+    = (if (a && c && d && o && e) = true then Outcome.pass else if a = true then Outcome.invalid 401 else Outcome.invalid 400) := by
+  cases a <;> cases c <;> cases d <;> cases o <;> cases e <;> rfl
+
+theorem oauthValidate_eq_spec (o : JwtCfg) (env : Env) (h : Header) :
+    oauthValidate o env.jwtLib h = Spec.jwtOK ⟨o.alg, o.secret, []⟩ { env with cookie := fun _ => none } h :=
+  jwtValidate_eq_spec ⟨o.alg, o.secret, []⟩ { env with cookie := fun _ => none } h
 
 /-- `Validator.Handle` (repaired code) computes exactly the specified outcome -/
 theorem handle_eq_expected (cfg : Cfg) (env : Env) (r : Request) : handle cfg env r = Spec.expected cfg env r := by
-  rcases cfg with ⟨hd, jw, sg, ba⟩
-  have key := outcome_bool (Spec.rulesOK ⟨hd, jw, sg, ba⟩ env r)
+  rcases cfg with ⟨hd, jw, sg, ba, oa⟩
+  have key := outcome_bool (Spec.rulesOK ⟨hd, jw, sg, ba, oa⟩ env r)
     (match jw with | some j => Spec.jwtOK j env r.std.headers | none => true)
     (match sg with | some s => sigValidate s env r (some r.payload) | none => true)
+    (match oa with | some o => Spec.jwtOK ⟨o.alg, o.secret, []⟩ { env with cookie := fun _ => none } r.std.headers | none => true)
     (!ba || (Spec.basicUser env r.std.headers).isSome)
   unfold Spec.expected Spec.accepts
   dsimp only
   refine Eq.trans ?_ key
   unfold handle handleWith Spec.rulesOK
   rw [show basicValidateWith parseCreds = basicValidate from rfl, basicValidate_eq_spec]
-  cases hd <;> cases jw <;> cases sg <;> cases ba <;> simp [jwtValidate_eq_spec]
+  cases hd <;> cases jw <;> cases sg <;> cases oa <;> cases ba <;> simp [jwtValidate_eq_spec, oauthValidate_eq_spec]
+
+/-! ### JWT time claims (`timeClaimsOK`) -/
+
+theorem pow10_pos (e : Nat) : (0 : Int) < (10 : Int) ^ e := Int.pow_pos (by decide)
+
+/-- `exp`: for a NumericDate `m·10⁻ᵉ ≥ 0` that is not "absent" (its integer part is not 0), the library's whole-second
+test `now ≤ int64(exp)` is the exact comparison `now ≤ exp` of the integer clock with the rational value -/
+theorem exp_secs_exact (now m : Int) (e : Nat) (hm : 0 ≤ m) :
+    now ≤ (ClaimVal.num m e).secs ↔ now * (10 : Int) ^ e ≤ m := by
+  simp only [ClaimVal.secs]
+  rw [Int.tdiv_eq_ediv_of_nonneg hm]
+  exact Int.le_ediv_iff_mul_le (pow10_pos e)
+
+/-- `nbf` / `iat`: `int64(nbf) ≤ now` iff `nbf < now + 1` — the token counts as valid from the whole second that
+contains `nbf` (less than one second early; exact for integer NumericDates) -/
+theorem nbf_secs_whole_second (now m : Int) (e : Nat) (hm : 0 ≤ m) :
+    (ClaimVal.num m e).secs ≤ now ↔ m < (now + 1) * (10 : Int) ^ e := by
+  simp only [ClaimVal.secs]
+  rw [Int.tdiv_eq_ediv_of_nonneg hm, ← Int.lt_add_one_iff]
+  exact Int.ediv_lt_iff_lt_mul (pow10_pos e)
+
+/-- the seconds value depends only on the number, not on its spelling (`1790738249.5`, `17907382495e-1`, …) -/
+theorem secs_spelling_invariant (m m' : Int) (e e' : Nat) (h : m * (10 : Int) ^ e' = m' * (10 : Int) ^ e) :
+    (ClaimVal.num m e).secs = (ClaimVal.num m' e').secs := by
+  simp only [ClaimVal.secs]
+  have he := pow10_pos e
+  have he' := pow10_pos e'
+  have h1 : Int.tdiv (m * (10 : Int) ^ e') ((10 : Int) ^ e * (10 : Int) ^ e') = Int.tdiv m ((10 : Int) ^ e) :=
+    Int.mul_tdiv_mul_of_pos_left m ((10 : Int) ^ e) he'
+  have h2 : Int.tdiv (m' * (10 : Int) ^ e) ((10 : Int) ^ e' * (10 : Int) ^ e) = Int.tdiv m' ((10 : Int) ^ e') :=
+    Int.mul_tdiv_mul_of_pos_left m' ((10 : Int) ^ e') he
+  rw [← h1, ← h2, h, Int.mul_comm ((10 : Int) ^ e) ((10 : Int) ^ e')]
+
+theorem timeClaimsOK_iff (now : Int) (c : TimeClaims) :
+    timeClaimsOK now c = true ↔ (c.exp.secs = 0 ∨ now ≤ c.exp.secs) ∧ (c.iat.secs = 0 ∨ c.iat.secs ≤ now) ∧
+      (c.nbf.secs = 0 ∨ c.nbf.secs ≤ now) := by
+  simp [timeClaimsOK, and_assoc]
 
 end EgVerif.Validator
